@@ -1,2 +1,3 @@
 //! Reference models (written from POSIX / docs, not from the implementation).
 pub mod vars;
+pub mod arith;
